@@ -1,7 +1,7 @@
 ------------------------------- MODULE Layout -------------------------------
 (* Meaning-preserving re-layouts of a paragraph (C03).
    A paragraph is a sequence of words (kinds: "p" plain, "s" sentence-ending word, "a" atomic construct with an inner
-   space (code span / link), "h" a word that looks like block syntax (-, 1., #, >, ```...), "t" template tag or HTML comment).
+   space (code span / link), "h" a word that looks like block syntax (-, 1., #, >, ```...), "e" a numeral whose period the author escaped (1\.), "t" template tag or HTML comment).
    A layout gives every gap between two words a separator:
      "s1" one space   "s2" two or more spaces   "nl" newline (+ the container's continuation prefix)
      "nli" newline + continuation prefix + extra indentation   "nll" newline without the prefix (lazy continuation).
